@@ -475,6 +475,9 @@ func (e *Evaluator) call(vals map[ssa.Value]Val, c *ssa.Call, env Env, depth int
 			if a.K == Const && a.C.Kind() == constant.String {
 				return C(int64(len(constant.StringVal(a.C))))
 			}
+			if l, ok := e.lenOf(vals, env, cc.Args[0], 0); ok {
+				return C(l)
+			}
 		case "min", "max":
 			var best constant.Value
 			for _, arg := range cc.Args {
@@ -553,6 +556,80 @@ func (e *Evaluator) call(vals map[ssa.Value]Val, c *ssa.Call, env Env, depth int
 		vals[tupleKey{c, j}] = merged[j]
 	}
 	return Val{}
+}
+
+// LenKey is the environment key under which the length of a slice/string value
+// is bound: env[consteval.LenKey(v)] = C(n) makes len(v), and len of every
+// re-slicing of v with known bounds, evaluate to constants.
+func LenKey(v ssa.Value) ssa.Value { return lenKey{v} }
+
+type lenKey struct{ v ssa.Value }
+
+func (lenKey) Name() string                  { return "len" }
+func (lenKey) String() string                { return "len" }
+func (lenKey) Type() types.Type              { return nil }
+func (lenKey) Parent() *ssa.Function         { return nil }
+func (lenKey) Referrers() *[]ssa.Instruction { return nil }
+func (lenKey) Pos() token.Pos                { return token.NoPos }
+
+// lenOf evaluates the length of a slice-like value from bound lengths.
+func (e *Evaluator) lenOf(vals map[ssa.Value]Val, env Env, v ssa.Value, depth int) (int64, bool) {
+	if depth > 6 {
+		return 0, false
+	}
+	if b, ok := env[lenKey{v}]; ok && b.K == Const {
+		n, exact := constant.Int64Val(b.C)
+		return n, exact
+	}
+	intOf := func(x ssa.Value) (int64, bool) {
+		c := e.get(vals, x)
+		if c.K != Const || c.C.Kind() != constant.Int {
+			return 0, false
+		}
+		return constant.Int64Val(c.C)
+	}
+	switch x := v.(type) {
+	case *ssa.ChangeType:
+		return e.lenOf(vals, env, x.X, depth+1)
+	case *ssa.Convert:
+		return e.lenOf(vals, env, x.X, depth+1)
+	case *ssa.MakeSlice:
+		return intOf(x.Len)
+	case *ssa.Slice:
+		var base int64
+		haveBase := false
+		if pt, ok := x.X.Type().Underlying().(*types.Pointer); ok {
+			if at, ok := pt.Elem().Underlying().(*types.Array); ok {
+				base, haveBase = at.Len(), true
+			}
+		}
+		if !haveBase {
+			base, haveBase = e.lenOf(vals, env, x.X, depth+1)
+		}
+		lo, hi := int64(0), base
+		okLo, okHi := true, haveBase
+		if x.Low != nil {
+			lo, okLo = intOf(x.Low)
+		}
+		if x.High != nil {
+			hi, okHi = intOf(x.High)
+		}
+		if okLo && okHi && lo >= 0 && hi >= lo {
+			return hi - lo, true
+		}
+	case *ssa.Phi:
+		// all incoming values of one length
+		var n int64
+		for i, ed := range x.Edges {
+			m, ok := e.lenOf(vals, env, ed, depth+1)
+			if !ok || (i > 0 && m != n) {
+				return 0, false
+			}
+			n = m
+		}
+		return n, len(x.Edges) > 0
+	}
+	return 0, false
 }
 
 func sameVal(a, b Val) bool {
